@@ -172,12 +172,12 @@ Qed.
 
 (* one amplifier, power mode: redesigning the exported amplifier in the same context (same span losses, an
    equal power budget D) reproduces it: same variety, equal gain / delta_p / VOAs, tilt rounded as exported *)
-Lemma design_amp_fix : forall s lib sel D D2 x a o D1, pm_ok s lib ->
-  (D2 == D)%Q -> design_amp s lib sel D x a = Ok (o, D1) ->
-  exists o' D1', design_amp s lib sel D2 x (export_amp o) = Ok (o', D1') /\ (D1' == D1)%Q /\
+Lemma design_amp_fix_ctx : forall s lib sel D D2 x x2 a o D1, pm_ok s lib ->
+  (D2 == D)%Q -> (x_loss x2 == x_loss x)%Q -> (x_ptot x2 == x_ptot x)%Q -> design_amp s lib sel D x a = Ok (o, D1) ->
+  exists o' D1', design_amp s lib sel D2 x2 (export_amp o) = Ok (o', D1') /\ (D1' == D1)%Q /\
     export_amp o' = export_amp o.
 Proof.
-  intros s lib sel D D2 x a o D1 Hok HD H. pose proof Hok as (Hpm & Hext & Hlib).
+  intros s lib sel D D2 x x2 a o D1 Hok HD HL HP H. pose proof Hok as (Hpm & Hext & Hlib).
   unfold design_amp in H. destruct (lib (amp_var sel a)) as [b|] eqn:Elib; [|discriminate].
   pose proof (amp_headroom s lib D x a b Hok) as K. cbn zeta in K.
   set (gd := amp_gd s D x a) in *. set (pr := amp_pr s D x a b gd) in *. set (vv := amp_voa s x a b gd pr) in *.
@@ -189,12 +189,12 @@ Proof.
                          (Some (Qred (snd gd + pr + snd vv))) (Some (round_dec 5 (match i_tilt a with None => 0%Q | Some t => t end)))
                          (Some (Qred (fst vv))) (Some (Qred (otru (i_invoa a))))) by reflexivity.
   assert (Evar : amp_var sel a' = amp_var sel a) by (rewrite Ea; unfold amp_var at 1; cbn [i_var i_name]; rewrite Hvar; reflexivity).
-  assert (Egd : amp_gd s D2 x a' = ((x_loss x + Qred (snd gd + pr + snd vv) - D2 + Qred (otru (i_invoa a)))%Q, Qred (snd gd + pr + snd vv))).
-  { rewrite (amp_gd_pm s D2 x a' Hpm). rewrite Ea. reflexivity. }
-  assert (Epr : amp_pr s D2 x a' b (amp_gd s D2 x a') = 0%Q).
+  assert (Egd : amp_gd s D2 x2 a' = ((x_loss x2 + Qred (snd gd + pr + snd vv) - D2 + Qred (otru (i_invoa a)))%Q, Qred (snd gd + pr + snd vv))).
+  { rewrite (amp_gd_pm s D2 x2 a' Hpm). rewrite Ea. reflexivity. }
+  assert (Epr : amp_pr s D2 x2 a' b (amp_gd s D2 x2 a') = 0%Q).
   { rewrite Egd. unfold amp_pr. cbn [fst snd]. rewrite Ea at 1. cbn [i_var]. rewrite Hvar, Hpm.
     apply qmin0_zero. rewrite Qred_correct. lra. }
-  assert (Evv : amp_voa s x a' b (amp_gd s D2 x a') 0 = (Qred (fst vv), 0%Q)) by (rewrite Ea; reflexivity).
+  assert (Evv : amp_voa s x2 a' b (amp_gd s D2 x2 a') 0 = (Qred (fst vv), 0%Q)) by (rewrite Ea; reflexivity).
   unfold design_amp. rewrite Evar, Elib, Epr, Evv, Egd, Hpm. cbn [fst snd].
   eexists. eexists. split; [reflexivity|]. split.
   - rewrite Ea. cbn [i_voa otru]. rewrite !Qred_correct.
@@ -202,13 +202,19 @@ Proof.
     destruct (b_vauto b); cbn [fst snd]; ring.
   - unfold export_amp. cbn [o_name o_var o_gain o_dp o_tilt o_voa o_invoa oqred]. rewrite Ea. cbn [i_name i_tilt i_invoa otru].
     f_equal.
-    + f_equal. apply round_dec_comp. rewrite !Qred_correct, HD.
+    + f_equal. apply round_dec_comp. rewrite !Qred_correct, HD, HL.
       unfold gd. rewrite (amp_gd_pm s D x a Hpm). cbn [fst snd]. ring.
     + f_equal. apply Qred_complete. rewrite !Qred_correct. ring.
     + f_equal. apply round_dec_idem.
     + f_equal. apply Qred_complete. rewrite Qred_correct. reflexivity.
     + f_equal. apply Qred_complete. rewrite Qred_correct. reflexivity.
 Qed.
+Lemma design_amp_fix : forall s lib sel D D2 x a o D1, pm_ok s lib ->
+  (D2 == D)%Q -> design_amp s lib sel D x a = Ok (o, D1) ->
+  exists o' D1', design_amp s lib sel D2 x (export_amp o) = Ok (o', D1') /\ (D1' == D1)%Q /\
+    export_amp o' = export_amp o.
+Proof. intros. eapply design_amp_fix_ctx; eauto; reflexivity. Qed.
+
 
 (* a whole OMS: the exported design is reproduced by a redesign in the same span contexts *)
 Definition reload (l : list (actx * ain)) (outs : list aout) : list (actx * ain) :=
@@ -443,3 +449,198 @@ Example ex_simparams : exists st during, set_params (Some [("method", JS "GGN_Sp
   estimate_raman_gain_params st = Ok (during, st) /\ n_method (sp_nli st) = "ggn_spectrally_separated"%string /\
   r_order (sp_raman during) = JZ 2.
 Proof. eexists. eexists. split; [vm_compute; reflexivity|]. split; [vm_compute; reflexivity|]. split; vm_compute; reflexivity. Qed.
+
+(* ---------- gain mode: the redesign reproduces the export up to the exported rounding ---------- *)
+Definition hh : Q := 1 # 2000000.      (* half a unit of the 6th decimal *)
+Lemma round6_err : forall x, (- hh <= round_dec 6 x - x)%Q /\ (round_dec 6 x - x <= hh)%Q.
+Proof.
+  intro x. unfold round_dec. rewrite Qred_correct.
+  assert (P : (pow10 6 == inject_Z 1000000)%Q) by reflexivity.
+  pose proof (rhe_le (x * pow10 6)) as H1. pose proof (rhe_ge (x * pow10 6)) as H2.
+  set (z := inject_Z (rhe (x * pow10 6))) in *. rewrite P in *. unfold hh.
+  assert (E : (z / inject_Z 1000000 == z * (1 # 1000000))%Q) by (field).
+  rewrite E. change (inject_Z 1000000) with (1000000 # 1)%Q in *. split; lra.
+Qed.
+Lemma amp_gd_gain_mode : forall s D x a, s_pm s = false ->
+  (snd (amp_gd s D x a) == D - x_loss x + fst (amp_gd s D x a) - otru (i_invoa a))%Q.
+Proof. intros s D x a H. unfold amp_gd. rewrite H. destruct (i_gain a); cbn [fst snd]; ring. Qed.
+Lemma amp_var_ne : forall (lib : string -> option alib) sel a b, lib ""%string = None -> lib (amp_var sel a) = Some b -> String.eqb (amp_var sel a) "" = false.
+Proof.
+  intros lib sel a b Hl H. destruct (String.eqb (amp_var sel a) "") eqn:E; [|reflexivity].
+  apply String.eqb_eq in E. rewrite E, Hl in H. discriminate.
+Qed.
+
+(* one amplifier, gain mode.  D2 within e of D: the redesign of the exported amplifier gives a gain within
+   e + 2 hh below / hh above the designed one, a budget within e + hh, and everything else as exported. *)
+Lemma design_amp_gain_mode : forall s lib sel D D2 x a o D1 e,
+  s_pm s = false -> lib ""%string = None -> (i_var a = ""%string -> (otru (i_invoa a) == 0)%Q) ->
+  (0 <= e)%Q -> (- e <= D2 - D)%Q -> (D2 - D <= e)%Q ->
+  design_amp s lib sel D x a = Ok (o, D1) ->
+  exists o' D1', design_amp s lib sel D2 x (export_amp o) = Ok (o', D1') /\
+    (- (e + hh) <= D1' - D1)%Q /\ (D1' - D1 <= e + hh)%Q /\
+    (- (e + 2 * hh) <= o_gain o' - o_gain o)%Q /\ (o_gain o' - o_gain o <= hh)%Q /\
+    o_name o' = o_name o /\ o_var o' = o_var o /\ o_dp o' = None /\ o_dp o = None /\
+    (o_voa o' == o_voa o)%Q /\ (o_invoa o' == o_invoa o)%Q /\ o_tilt o' = round_dec 5 (o_tilt o).
+Proof.
+  intros s lib sel D D2 x a o D1 e Hpm Hlib Hinv He HD1 HD2 H.
+  unfold design_amp in H. destruct (lib (amp_var sel a)) as [b|] eqn:Elib; [|discriminate].
+  pose proof (amp_gd_gain_mode s D x a Hpm) as Hdp.
+  set (gd := amp_gd s D x a) in *. set (pr := amp_pr s D x a b gd) in *.
+  set (vv := amp_voa s x a b gd pr) in *.
+  inversion H; subst o D1; clear H. rewrite Hpm in *.
+  pose proof (amp_var_ne lib sel a b Hlib Elib) as Hvar.
+  (* round 1: no saturation left, nothing added by the VOA *)
+  assert (Hvv : snd vv = 0%Q /\ fst vv = otru (i_voa a)).
+  { unfold vv, amp_voa. rewrite Hpm. destruct (i_voa a); cbn; split; reflexivity. }
+  destruct Hvv as [Hv1 Hv2].
+  assert (Hpr0 : (pr <= 0)%Q).
+  { unfold pr, amp_pr. rewrite Hpm. destruct (String.eqb (i_var a) ""); apply qmin_l. }
+  assert (Hsat : (x_ptot x + D - x_loss x + fst gd + pr <= b_pmax b)%Q).
+  { unfold pr, amp_pr. rewrite Hpm. destruct (String.eqb (i_var a) "") eqn:Ea.
+    - apply String.eqb_eq in Ea. specialize (Hinv Ea).
+      pose proof (qmin_r 0 (qmin (x_ptot x + snd gd - fst gd + b_gfm b + s_ext s) (b_pmax b) - (x_ptot x + snd gd))).
+      pose proof (qmin_r (x_ptot x + snd gd - fst gd + b_gfm b + s_ext s) (b_pmax b)). lra.
+    - pose proof (qmin_r 0 (b_pmax b - (x_ptot x + D - x_loss x + fst gd))). lra. }
+  set (G := (fst gd + pr + snd vv)%Q) in *.
+  set (a' := export_amp _).
+  assert (Ea : a' = mkIn (i_name a) (amp_var sel a) (Some (round_dec 6 G)) None
+                         (Some (round_dec 5 (match i_tilt a with None => 0%Q | Some t => t end)))
+                         (Some (Qred (fst vv))) (Some (Qred (otru (i_invoa a))))) by reflexivity.
+  destruct (round6_err G) as [R1 R2]. set (g6 := round_dec 6 G) in *.
+  assert (Evar : amp_var sel a' = amp_var sel a) by (rewrite Ea; unfold amp_var at 1; cbn [i_var i_name]; rewrite Hvar; reflexivity).
+  assert (Egd : amp_gd s D2 x a' = (g6, (D2 - x_loss x + g6 - Qred (otru (i_invoa a)))%Q)).
+  { unfold amp_gd. rewrite Hpm, Ea. reflexivity. }
+  set (pr' := qmin 0 (b_pmax b - (x_ptot x + D2 - x_loss x + g6))).
+  assert (Epr : amp_pr s D2 x a' b (amp_gd s D2 x a') = pr').
+  { rewrite Egd. unfold amp_pr. cbn [fst snd]. rewrite Ea at 1. cbn [i_var]. rewrite Hvar, Hpm. reflexivity. }
+  assert (Evv : amp_voa s x a' b (amp_gd s D2 x a') pr' = (Qred (fst vv), 0%Q)) by (rewrite Ea; reflexivity).
+  unfold design_amp. rewrite Evar, Elib, Epr, Evv, Egd, Hpm. cbn [fst snd].
+  eexists. eexists. split; [reflexivity|].
+  assert (P0 : (pr' <= 0)%Q) by apply qmin_l.
+  assert (P1 : (pr' <= b_pmax b - (x_ptot x + D2 - x_loss x + g6))%Q) by apply qmin_r.
+  assert (P2 : pr' = 0%Q \/ pr' = (b_pmax b - (x_ptot x + D2 - x_loss x + g6))%Q) by apply qmin_cases.
+  assert (PG : (G == fst gd + pr)%Q) by (unfold G; rewrite Hv1; ring).
+  cbn [o_gain o_name o_var o_dp o_voa o_invoa o_tilt]. rewrite Ea. cbn [i_voa i_name i_tilt i_invoa otru].
+  rewrite !Qred_correct. rewrite Hv2 in *.
+  repeat split; try reflexivity; try (destruct P2 as [P2|P2]; rewrite P2 in *; lra).
+Qed.
+
+(* the same, exactly, when the designed gain already lies on the export grid *)
+Lemma design_amp_gain_mode_exact : forall s lib sel D D2 x a o D1,
+  s_pm s = false -> lib ""%string = None -> (i_var a = ""%string -> (otru (i_invoa a) == 0)%Q) ->
+  (D2 == D)%Q -> design_amp s lib sel D x a = Ok (o, D1) -> (round_dec 6 (o_gain o) == o_gain o)%Q ->
+  exists o' D1', design_amp s lib sel D2 x (export_amp o) = Ok (o', D1') /\ (D1' == D1)%Q /\ export_amp o' = export_amp o.
+Proof.
+  intros s lib sel D D2 x a o D1 Hpm Hlib Hinv HD H Hgrid.
+  unfold design_amp in H. destruct (lib (amp_var sel a)) as [b|] eqn:Elib; [|discriminate].
+  pose proof (amp_gd_gain_mode s D x a Hpm) as Hdp.
+  set (gd := amp_gd s D x a) in *. set (pr := amp_pr s D x a b gd) in *.
+  set (vv := amp_voa s x a b gd pr) in *.
+  inversion H; subst o D1; clear H. rewrite Hpm in *. cbn [o_gain] in Hgrid.
+  pose proof (amp_var_ne lib sel a b Hlib Elib) as Hvar.
+  assert (Hvv : snd vv = 0%Q /\ fst vv = otru (i_voa a)).
+  { unfold vv, amp_voa. rewrite Hpm. destruct (i_voa a); cbn; split; reflexivity. }
+  destruct Hvv as [Hv1 Hv2].
+  assert (Hsat : (x_ptot x + D - x_loss x + fst gd + pr <= b_pmax b)%Q).
+  { unfold pr, amp_pr. rewrite Hpm. destruct (String.eqb (i_var a) "") eqn:Ea.
+    - apply String.eqb_eq in Ea. specialize (Hinv Ea).
+      pose proof (qmin_r 0 (qmin (x_ptot x + snd gd - fst gd + b_gfm b + s_ext s) (b_pmax b) - (x_ptot x + snd gd))).
+      pose proof (qmin_r (x_ptot x + snd gd - fst gd + b_gfm b + s_ext s) (b_pmax b)). lra.
+    - pose proof (qmin_r 0 (b_pmax b - (x_ptot x + D - x_loss x + fst gd))). lra. }
+  set (G := (fst gd + pr + snd vv)%Q) in *.
+  set (a' := export_amp _).
+  assert (Ea : a' = mkIn (i_name a) (amp_var sel a) (Some (round_dec 6 G)) None
+                         (Some (round_dec 5 (match i_tilt a with None => 0%Q | Some t => t end)))
+                         (Some (Qred (fst vv))) (Some (Qred (otru (i_invoa a))))) by reflexivity.
+  set (g6 := round_dec 6 G) in *.
+  assert (Evar : amp_var sel a' = amp_var sel a) by (rewrite Ea; unfold amp_var at 1; cbn [i_var i_name]; rewrite Hvar; reflexivity).
+  assert (Egd : amp_gd s D2 x a' = (g6, (D2 - x_loss x + g6 - Qred (otru (i_invoa a)))%Q)).
+  { unfold amp_gd. rewrite Hpm, Ea. reflexivity. }
+  assert (PG : (G == fst gd + pr)%Q) by (unfold G; rewrite Hv1; ring).
+  assert (Epr : amp_pr s D2 x a' b (amp_gd s D2 x a') = 0%Q).
+  { rewrite Egd. unfold amp_pr. cbn [fst snd]. rewrite Ea at 1. cbn [i_var]. rewrite Hvar, Hpm.
+    apply qmin0_zero. lra. }
+  assert (Evv : amp_voa s x a' b (amp_gd s D2 x a') 0 = (Qred (fst vv), 0%Q)) by (rewrite Ea; reflexivity).
+  unfold design_amp. rewrite Evar, Elib, Epr, Evv, Egd, Hpm. cbn [fst snd].
+  eexists. eexists. split; [reflexivity|]. split.
+  - rewrite Ea. cbn [i_voa otru]. rewrite !Qred_correct, Hv2. lra.
+  - unfold export_amp. cbn [o_name o_var o_gain o_dp o_tilt o_voa o_invoa oqred]. rewrite Ea. cbn [i_name i_tilt i_invoa otru].
+    f_equal.
+    + f_equal. apply round_dec_comp. lra.
+    + f_equal. apply round_dec_idem.
+    + f_equal. apply Qred_complete. rewrite Qred_correct. reflexivity.
+    + f_equal. apply Qred_complete. rewrite Qred_correct. reflexivity.
+Qed.
+
+(* a whole OMS in gain mode *)
+Fixpoint gm_close (e : Q) (outs outs' : list aout) : Prop :=
+  match outs, outs' with
+  | [], [] => True
+  | o :: t, o' :: t' =>
+      (- (e + 2 * hh) <= o_gain o' - o_gain o)%Q /\ (o_gain o' - o_gain o <= hh)%Q /\
+      o_name o' = o_name o /\ o_var o' = o_var o /\ o_dp o' = None /\ o_dp o = None /\
+      (o_voa o' == o_voa o)%Q /\ (o_invoa o' == o_invoa o)%Q /\ o_tilt o' = round_dec 5 (o_tilt o) /\
+      gm_close (e + hh) t t'
+  | _, _ => False
+  end.
+Definition inv_ok (xa : actx * ain) : Prop := i_var (snd xa) = ""%string -> (otru (i_invoa (snd xa)) == 0)%Q.
+Lemma design_amps_gain_mode : forall s lib sel l D D2 outs e,
+  s_pm s = false -> lib ""%string = None -> Forall inv_ok l -> (0 <= e)%Q -> (- e <= D2 - D)%Q -> (D2 - D <= e)%Q ->
+  design_amps s lib sel D l = Ok outs ->
+  exists outs', design_amps s lib sel D2 (reload l outs) = Ok outs' /\ gm_close e outs outs'.
+Proof.
+  intros s lib sel. induction l as [|[x a] t IH]; intros D D2 outs e Hpm Hlib Hi He H1 H2 H.
+  - inversion H. exists []. split; [reflexivity | exact I].
+  - cbn [design_amps] in H. destruct (design_amp s lib sel D x a) as [[o Dn]|] eqn:E1; [|discriminate]. cbn [bind fst snd] in H.
+    destruct (design_amps s lib sel Dn t) as [rest|] eqn:E2; [|discriminate]. cbn [bind] in H. inversion H; subst outs.
+    inversion Hi as [|? ? Hia Hit]; subst.
+    destruct (design_amp_gain_mode s lib sel D D2 x a o Dn e Hpm Hlib Hia He H1 H2 E1)
+      as (o' & Dn' & F1 & B1 & B2 & G1 & G2 & N1 & N2 & N3 & N4 & N5 & N6 & N7).
+    assert (He' : (0 <= e + hh)%Q) by (unfold hh; lra).
+    destruct (IH Dn Dn' rest (e + hh)%Q Hpm Hlib Hit He' B1 B2 E2) as (rest' & R1 & R2).
+    exists (o' :: rest'). unfold reload in *. cbn [map combine fst design_amps]. rewrite F1. cbn [bind fst snd].
+    rewrite R1. cbn [bind]. split; [reflexivity|]. cbn [gm_close]. repeat split; assumption.
+Qed.
+Lemma design_amps_gain_mode_exact : forall s lib sel l D D2 outs,
+  s_pm s = false -> lib ""%string = None -> Forall inv_ok l -> (D2 == D)%Q ->
+  design_amps s lib sel D l = Ok outs -> Forall (fun o => (round_dec 6 (o_gain o) == o_gain o)%Q) outs ->
+  exists outs', design_amps s lib sel D2 (reload l outs) = Ok outs' /\ map export_amp outs' = map export_amp outs.
+Proof.
+  intros s lib sel. induction l as [|[x a] t IH]; intros D D2 outs Hpm Hlib Hi HD H Hg.
+  - inversion H. exists []. split; reflexivity.
+  - cbn [design_amps] in H. destruct (design_amp s lib sel D x a) as [[o Dn]|] eqn:E1; [|discriminate]. cbn [bind fst snd] in H.
+    destruct (design_amps s lib sel Dn t) as [rest|] eqn:E2; [|discriminate]. cbn [bind] in H. inversion H; subst outs.
+    inversion Hi as [|? ? Hia Hit]; subst. inversion Hg as [|? ? Hgo Hgr]; subst.
+    destruct (design_amp_gain_mode_exact s lib sel D D2 x a o Dn Hpm Hlib Hia HD E1 Hgo) as (o' & Dn' & F1 & F2 & F3).
+    destruct (IH Dn Dn' rest Hpm Hlib Hit F2 E2 Hgr) as (rest' & R1 & R2).
+    exists (o' :: rest'). unfold reload in *. cbn [map combine fst design_amps]. rewrite F1. cbn [bind fst snd].
+    rewrite R1. cbn [bind]. split; [reflexivity|]. cbn [map]. rewrite F3, R2. reflexivity.
+Qed.
+(* what gm_close means for the exported documents: everything but gain_target identical, gain_target within
+   e + 4 hh below / 3 hh above, i.e. at most 2 units of the 6th decimal below and 1 above for the first amplifier
+   (e = 0), half a unit more per amplifier further down the OMS *)
+Lemma gm_close_export : forall e o o',
+  (- (e + 2 * hh) <= o_gain o' - o_gain o)%Q -> (o_gain o' - o_gain o <= hh)%Q ->
+  o_name o' = o_name o -> o_var o' = o_var o -> o_dp o' = None -> o_dp o = None ->
+  (o_voa o' == o_voa o)%Q -> (o_invoa o' == o_invoa o)%Q -> o_tilt o' = round_dec 5 (o_tilt o) ->
+  i_name (export_amp o') = i_name (export_amp o) /\ i_var (export_amp o') = i_var (export_amp o) /\
+  i_dp (export_amp o') = i_dp (export_amp o) /\ i_tilt (export_amp o') = i_tilt (export_amp o) /\
+  i_voa (export_amp o') = i_voa (export_amp o) /\ i_invoa (export_amp o') = i_invoa (export_amp o) /\
+  exists g g', i_gain (export_amp o) = Some g /\ i_gain (export_amp o') = Some g' /\
+               (- (e + 4 * hh) <= g' - g)%Q /\ (g' - g <= 3 * hh)%Q.
+Proof.
+  intros e o o' G1 G2 N1 N2 N3 N4 N5 N6 N7. unfold export_amp. cbn [i_name i_var i_dp i_tilt i_voa i_invoa i_gain].
+  rewrite N1, N2, N3, N4, N7, round_dec_idem. repeat split; try reflexivity.
+  - f_equal. apply Qred_complete. exact N5.
+  - f_equal. apply Qred_complete. exact N6.
+  - eexists. eexists. split; [reflexivity|]. split; [reflexivity|].
+    destruct (round6_err (o_gain o)) as [A1 A2]. destruct (round6_err (o_gain o')) as [B1 B2]. split; lra.
+Qed.
+Example ex_gain_mode : exists outs outs',
+  design_amps (mkS false (-2) 3 (1 # 2) (3 # 10) 20 1 (1 # 2) (5 # 2)) ex_lib ex_sel (-20) ex_items = Ok outs /\
+  design_amps (mkS false (-2) 3 (1 # 2) (3 # 10) 20 1 (1 # 2) (5 # 2)) ex_lib ex_sel (-20) (reload ex_items outs) = Ok outs' /\
+  map export_amp outs' = map export_amp outs /\ Forall inv_ok ex_items /\ length outs = 3%nat.
+Proof.
+  eexists. eexists. split; [vm_compute; reflexivity|]. split; [vm_compute; reflexivity|]. split; [vm_compute; reflexivity|].
+  split; [|reflexivity]. repeat constructor; intro; reflexivity.
+Qed.
